@@ -18,5 +18,13 @@ void run_crc(const char *op)
         for (size_t i = 0; i < n; i++) w[i] = (uint16_t)aLu(1, i);
         out_n(ufw_crc16_arc_u16((uint16_t)aN(0), w, n));
         free(w);
+    } else if (!strcmp(op, "crc.buf")) {
+        /* the entry points with the fixed initial value: octets, and the same octets as 16-bit words when their number is even */
+        out_n(ufw_buffer_crc16_arc(aH(0), aHlen(0)));
+        size_t n = aHlen(0) / 2;
+        uint16_t *w = malloc(n ? n * sizeof *w : 1);
+        memcpy(w, aH(0), 2 * n);
+        out_n(ufw_buffer_crc16_arc_u16(w, n));
+        free(w);
     } else out_s("unknown-op");
 }
